@@ -57,6 +57,8 @@ func runC06(c *an.Ctx) {
 	r066(c)
 	r068(c, "R06.8")
 	c.Min("R06.8", 3)
+	r1418(c, "R06.12") // a mask written for an aggregate is applied to the aggregate, not to the items it is assembled from (shared with R14.18)
+	c.Min("R06.12", 2)
 	r0610(c, "R06.10")
 	c.Min("R06.10", 3)
 	// a read never alters what is stored: E2 (shared with R07.1) over the read side - Get/List/Pull functions of the
